@@ -391,9 +391,27 @@ func c08DocSet(r *rep.Run, st *c08stats, n *qnode, docs []qx.Doc, filters []qx.F
 			}
 		}
 	}
-	// ---- groupBy ----
-	for _, g := range []string{"a", "b"} {
-		req := fmt.Sprintf(`query { T(groupBy: [%s]) { %s _count(_group: {}) _group { u } } }`, g, g)
+	// ---- groupBy, alone and combined with filters (incl. compound ones) and aggregates ----
+	type gcase struct {
+		g    string
+		f    qx.Filter
+		want []int
+	}
+	gcases := []gcase{{"a", nil, all}, {"b", nil, all}}
+	for i, f := range filters {
+		if i%11 == 0 || (i > len(filters)-40 && i%5 == 0) {
+			if got, ok := results[f.GQL()]; ok {
+				gcases = append(gcases, gcase{[]string{"a", "b"}[i%2], f, got})
+			}
+		}
+	}
+	for _, gc := range gcases {
+		g, all := gc.g, gc.want
+		farg := ""
+		if gc.f != nil {
+			farg = ", filter: " + gc.f.GQL()
+		}
+		req := fmt.Sprintf(`query { T(groupBy: [%s]%s) { %s _count(_group: {}) _sum(_group: {field: u}) _group { u } } }`, g, farg, g)
 		rows, _, ok := q(req)
 		if !ok {
 			continue
@@ -410,6 +428,13 @@ func c08DocSet(r *rep.Run, st *c08stats, n *qnode, docs []qx.Doc, filters []qx.F
 			if c := toInt(row["_count"]); int(c) != len(grp) {
 				viol("groupby-count", req, fmt.Sprintf("group %s: _count=%d, %d members", key, c, len(grp)))
 			}
+			var usum int64
+			for _, m := range us(grp) {
+				usum += int64(m)
+			}
+			if sgot := toInt(row["_sum"]); sgot != usum {
+				viol("groupby-sum", req, fmt.Sprintf("group %s: _sum(u)=%d, members sum to %d", key, sgot, usum))
+			}
 			for _, m := range us(grp) {
 				members = append(members, m)
 				if m >= 0 && m < len(docs) {
@@ -424,7 +449,7 @@ func c08DocSet(r *rep.Run, st *c08stats, n *qnode, docs []qx.Doc, filters []qx.F
 			}
 		}
 		if !eqInts(sortedInts(members), all) {
-			viol("groupby-not-a-partition", req, fmt.Sprintf("members %v, collection %v", members, all))
+			viol("groupby-not-a-partition", req, fmt.Sprintf("members of all groups %v, the listing of the same filter %v", members, all))
 		}
 	}
 	st.mu.Lock()
